@@ -42,7 +42,7 @@ lines" |} ];
      f_ves := []; f_srs := []; f_sgs := []; f_svs := [];
      f_xms := [ {| xm_id := 1; xm_muxed := s2l "a"; xm_muxor := s2l "sel"; xm_ranges := [(0, 0); (2, 4294967295)] |} ] |}.
 
-Lemma sample_file_wf : wf_file sample_file.
+Lemma sample_file_wf : wf_file no_ud sample_file.
 Proof.
   unfold wf_file, wf_header, sample_file. split.
   - repeat split; try reflexivity; try (cbv; reflexivity); repeat constructor.
